@@ -87,7 +87,12 @@ func buildConfigs() []*Config {
 		add("quick", l, sh, true, false, 1, evWon)
 		add("quick", l, sh, true, false, 1, evLost)
 		add("quick", l, sh, true, false, 1, evShutdown)
-		add("quick", l, sh, true, true, 1, evShutdown) // bid timeout (virtual timer) racing with a shutdown
+		// Config.BidTimeout is 0 (disabled) everywhere above and > 0 here: bid timeout (virtual timer) racing with a
+		// shutdown, and - for the shapes that place a bid - with the order being closed
+		add("quick", l, sh, true, true, 1, evShutdown)
+		if sh == "new" {
+			add("quick", l, sh, true, true, 1, evClosed)
+		}
 		if sh != "catchup-queryfails" {
 			add("quick", l, sh, false, false, 1, evClosed) // no signature requirement: the eligibility check makes no call
 		}
@@ -698,6 +703,7 @@ func doParent(tier string, nworkers int, only string, d time.Duration, noEvid bo
 			Assumptions: []string{
 				"interleaving granularity: one transition = the code between two channel/select/sync operations of one goroutine; unsynchronised shared-memory races are outside this check",
 				"one order, one group; every environment event at most once per execution; at most 1 (quick) / 2 (thorough) injected failures per execution; every call the monitor makes eventually completes",
+				"a query / pricing / broadcast call made with a context that is already done returns ctx.Err() and submits nothing (as client/broadcaster/serial.go may); contexts are real (not virtualised): only cancel() by the monitor and zero/negative timeouts are visible; Config.BidTimeout is 0 in all configurations except the '-timeout-' ones",
 				"pricing.go (shell-script and random strategies) is not instrumented and is replaced by a scripted BidPricingStrategy returning the group maximum, maximum+1, or an error",
 				"'without the provider having won the lease' = no EventLeaseCreated for this order and this provider was published before the monitor terminated; 'released' / 'close-bid submitted' = an Unreserve call made after the successful Reserve / a MsgCloseBid broadcast call, whatever they return",
 				"the close-bid obligation is checked for bids created by THIS monitor (a successful MsgCreateBid broadcast), not for a bid found by the existing-bid query (found in state open / active / lost / closed: in every state no MsgCreateBid may follow - 'at most one bid' across restarts)",
